@@ -32,6 +32,28 @@ def respondReflect (ws : List String) : Option String :=
         s!"caps:{joinOr (caps.map capName)} exts:{joinOr (exts.map nameString)} id:{id}")
     | some _ => some "ok add:- caps:- exts:- id:-"
     | none => some "bad-request"
+  | ["conv", o] =>
+    -- `From<payload type>` (by the translated impls) and the variant's own accessor
+    match readOperand o with
+    | none => some "bad-request"
+    | some op =>
+      let v := match op with | .w v _ => v | .q _ => vLit64 | .s _ => vLitString
+      let withVariant (fv : Nat) : Operand := match op with | .w _ x => .w fv x | other => other
+      let fromTxt := match Rspirv.Generated.Reflect.variantPayloadType[v]? with
+        | some t => (match Rspirv.Generated.Reflect.fromImpls.find? (fun (f : Nat × Nat) => f.1 == t) with
+          | some f => showOperand (withVariant f.2)
+          | none => "-")
+        | none => "-"
+      let unTxt := if (Rspirv.Generated.Reflect.unwraps.any (fun (u : Nat × Nat) => u.2 == v)) then showOperand op else "-"
+      some s!"ok {fromTxt} {unTxt}"
+  | ["unwrapx", o, j] =>
+    match readOperand o, j.toNat? with
+    | some op, some j =>
+      let v := match op with | .w v _ => v | .q _ => vLit64 | .s _ => vLitString
+      match Rspirv.Generated.Reflect.unwraps[j]? with
+      | none => some "bad-request"
+      | some u => if u.2 == v then some s!"ok {showOperand op}" else some "panic"
+    | _, _ => some "bad-request"
   | ["idmut", i, k, new] =>
     match readInst i, k.toNat?, new.toNat? with
     | some inst, some k, some nw =>
